@@ -469,12 +469,12 @@ def main(argv=None):
     deadline = time.time() + (a.budget or (75 if quick else 1500))
     n = 2500 if quick else 300000
     with common.Pool() as pool:
-        cases = []
-        for i in range(n):
-            cases.append(gen_api_case(a.seed * 1_000_000 + i))
-            cases.append(gen_e2e_case(a.seed * 1_000_000 + i))
-        for c in cases[:2]:
-            c["want_sample"] = True
+        def gen():
+            for i in range(n):
+                yield gen_api_case(a.seed * 1_000_000 + i)
+                yield gen_e2e_case(a.seed * 1_000_000 + i)
+
+        cases = common.with_samples(gen(), 2)
         for case, res in pool.map(run_case, cases, deadline=deadline, chunksize=8):
             ev.add_run(res)
             for v in res["violations"]:
